@@ -7,6 +7,7 @@ ErrorHandler.handle_error is called directly for every policy x validation-mode 
 (valid, stopped) and compared with model and property by the Coq kernel; (b) real csvpaths with an
 error-provoking component (5 kinds + the blank-final-record path) on chosen lines are run under
 every policy and a set of validation modes and judged against the property's statement."""
+import collections
 import itertools
 import os
 
@@ -79,7 +80,11 @@ KINDS = {"pyexc": '@s = int(#a)', "argtype": '@s = add(#a, 1)', "rule": '@s = su
          "nested": 'yes() -> @t = add(#a, 2)', "rhs": '@q = subtract(int(#a), 1)', "lasts": 'last.nocontrib() -> @s = int("zz")', "skipafter": '@s = int(#a) skip() yes()',
          "stopafter": '@s = int(#a) eq.nocontrib(#b, "y") -> stop() yes()',
          # the error is in the condition of a when/do whose action is fail(): a condition that raised did not come out true, the action does not run
-         "whenfail": 'lt(int(#a), -5) -> fail()'}      # (-5: lt() answers <= — open finding D1 — and a cell may hold 0)
+         "whenfail": 'lt(int(#a), -5) -> fail()',
+         # two errors on one line: add() reports its non-numeric argument, gt() that it cannot continue over an invalid child — each is handled
+         "nested2": 'gt(add(#a, 1), 0)'}
+# the errors one offending line raises (each is handled: one record under 'collect', one message under 'print')
+PER_LINE = {"whenfail": 2, "nested2": 2}      # (-5: lt() answers <= — open finding D1 — and a cell may hold 0)
 
 
 def run_impl(job):
@@ -109,7 +114,7 @@ def run_impl(job):
                 lines = c.collect(text)
             except Exception as ex:  # noqa
                 out["exc"] = type(ex).__name__
-        out.update({"lines": None if lines is None else [l[0] for l in lines], "error_lines": sorted({e.line_count for e in (c.errors or [])}),
+        out.update({"lines": None if lines is None else [l[0] for l in lines], "error_lines": sorted({e.line_count for e in (c.errors or [])}), "error_counts": sorted(collections.Counter(e.line_count for e in (c.errors or [])).items()),
                     "valid": bool(c.is_valid), "printed": len(tp.lines), "seen": list(c.variables.get("seen", [])), "stopped": bool(c.stopped)})
     except Exception as ex:  # noqa
         out["exc"] = "SETUP " + type(ex).__name__ + str(ex)[:60]
@@ -151,6 +156,14 @@ def expected(kind, pol, vm, offending, zero=False):  # noqa: F811
     if kind == "whenfail" and e["lines"] is not None:
         # the condition is false on every other line (a when/do votes its condition), so no line matches (validation-mode: match is not combined with this kind)
         e["lines"] = []
+    e["per_line"] = PER_LINE.get(kind)        # judged for the kinds whose number of errors per line is stated above (not under validation-mode: match, where evaluation goes on)
+    if vm.get("match") is True:
+        e["per_line"] = None
+    R, S = eff(vm, pol, "raise"), eff(vm, pol, "stop")
+    # the lines whose errors are handled before the run ends: with raise only the first error of the first line (not judged), with stop the first line
+    e["handled_lines"] = None if (R or kind == "lasts") else (1 if S else len(offending))
+    if R:
+        e["per_line"] = None
     if kind == "stopafter":
         # a later component of the offending line stops the run (stop() is not the last component, so that line is not returned):
         # the error raised before the stop is handled all the same
@@ -172,6 +185,12 @@ def judge(o, e):
         return "is_valid becomes False iff 'fail'"
     if (o["printed"] > 0) != e["printed"]:
         return "the message is sent to the printers iff 'print'"
+    if e.get("per_line") and o.get("error_counts") is not None:
+        # every error of a line is handled, not only the first: one record each under 'collect', one message each under 'print'
+        if [list(x) for x in o["error_counts"]] != [[l, e["per_line"]] for l in e["error_lines"]]:
+            return "every error raised on a line is collected (one record each) iff 'collect'"
+        if e["printed"] and e["handled_lines"] is not None and o["printed"] != e["per_line"] * e["handled_lines"]:
+            return "every error raised on a line is sent to the printers (one message each) iff 'print'"
     if o["seen"] != e["seen"]:
         return "the run stops at that line iff 'stop'"
     if o["lines"] != e["lines"]:
@@ -218,7 +237,7 @@ def run(ctx):
                 offs = [rng.choice(OFF)] if quick else OFF
                 if kind == "lasts":
                     offs = [set()]
-                if kind == "whenfail" and vm.get("match") is True:
+                if kind in ("whenfail", "nested2") and vm.get("match") is True:
                     continue
                 for off in offs:
                     rjobs.append((kind, pol, vm, off))
